@@ -85,6 +85,35 @@ def run_case(ctx, rng):
                 return {"oid": obj.oid, "bytes": f.read(), "size": meta.size}
 
         k3, f = safe_call(file_level)
+        # ---- a second round over the same source after one file was replaced the way `rsync -t` / `cp -p` / an archive
+        # extractor does it (other bytes of the same length, old timestamps, renamed over the path)
+        second = None
+        if rng.random() < 0.5:
+            key = rng.choice(sorted(files))
+            fp = os.path.join(ws, *key)
+            st0 = os.stat(fp)
+            newb = bytes((b + 1) % 256 for b in files[key])
+            with open(fp + ".incoming", "wb") as fh:
+                fh.write(newb)
+            os.utime(fp + ".incoming", ns=(st0.st_atime_ns, st0.st_mtime_ns))
+            os.replace(fp + ".incoming", fp)
+            want2 = {**want, "/".join(key): newb}
+
+            def again():
+                staging, meta, obj = build(odb, ws, fs, "md5")
+                transfer(staging, odb, {obj.hash_info}, shallow=False)
+                out = os.path.join(root, "out-obj-2")
+                checkout(out, fs, load(odb, obj.hash_info), odb, force=True, state=st)
+                idx = imd5(ibuild(ws, fs), state=st)
+                odb3 = stores.make_odb(os.path.join(root, "odb3"), local=local, type=[link], **cfg)
+                isave(idx, odb=odb3)
+                idx.storage_map.add_cache(ObjectStorage((), odb3))
+                out2 = os.path.join(root, "out-idx-2")
+                os.makedirs(out2)
+                apply(compare(None, idx), out2, fs, update_meta=False, state=st)
+                return walk_files(out), walk_files(out2)
+
+            second = (safe_call(again), want2, "/".join(key))
     finally:
         if st:
             st.close()
@@ -113,6 +142,13 @@ def run_case(ctx, rng):
         ctx.oracle(False, case, {"why": "index-level round trip raised", "impl": x})
     ctx.oracle(k3 == "ok" and f["bytes"] == files[some_key] and f["oid"] == md5hex(files[some_key]) and f["size"] == len(files[some_key]), case,
                {"why": "single-file round trip", "impl": str(f)[:200]})
+    if second is not None:
+        (k4, outs), want2, changed = second
+        ctx.count("second_round_after_same_size_replacement")
+        ctx.oracle(k4 == "ok" and outs[0] == want2 and outs[1] == want2, case,
+                   {"why": "a second round trip after one file was replaced (same size, same timestamps, new inode) does not reproduce the current data",
+                    "replaced": changed, "impl": str(outs)[:200] if k4 != "ok" else
+                    {"object_level_differs": sorted(k for k in want2 if outs[0].get(k) != want2[k]), "index_level_differs": sorted(k for k in want2 if outs[1].get(k) != want2[k])}})
     if len(ctx.samples) < 2:
         ctx.sample({"case": case, "oid": o.get("oid") if k1 == "ok" else None})
 
@@ -122,7 +158,7 @@ def run(ctx):
         "directory trees of 1-9 files at depth 0-4 with odd names (non-ASCII, spaces, quotes, backslash, newline, leading dots, "
         "'x.dir'), duplicate contents, empty files, NUL bytes, CRLF text; both store classes x copy/hardlink/symlink x with/without "
         "state; each through (1) build -> transfer -> Tree.load -> object checkout, (2) index build -> md5 -> save -> compare/apply, "
-        "(3) a single file. non-trivial = at least two files; distinct = sha256 of the case"
+        "(3) a single file, (4) a second round after a same-size, same-timestamp replacement of one file. non-trivial = at least two files; distinct = sha256 of the case"
     )
     ctx.assumptions = ["paths are absolute and normalised (the slicing in _build_tree relies on it)", "empty directories are not tracked"]
     for _ in range(ctx.n(110, 1200)):
